@@ -402,7 +402,10 @@ class DocSim(core.Engine):
                 if step >= n_ops:
                     break
                 op = None
-                for _ in range(6):
+                script = getattr(sess, 'script', None)
+                if script:
+                    op = script.pop(0)       # continuation of a scripted multi-call sequence
+                for _ in range(6 if op is None else 0):
                     cls = rng.choices(classes, [weights[c] for c in classes])[0]
                     g = docops.Gen(sess, rng, profile)
                     try:
@@ -452,8 +455,11 @@ class DocSim(core.Engine):
                     res.pairs.add(sig[-2].split('@')[0] + '>' + eff.kind)
                 if eff.cls in relevant or (op['op'] == 'faults' and 'F' in relevant):
                     res.relevant_ops += 1
-                log.append({'n': step, 'op': eff.kind, 'target': eff.target, 'outcome': eff.outcome,
-                            'text': core.sha(print_model(sess.root))})
+                try:
+                    text_sha = core.sha(print_model(sess.root))
+                except Exception:
+                    text_sha = 'unprintable'     # the tree invariant reports this state
+                log.append({'n': step, 'op': eff.kind, 'target': eff.target, 'outcome': eff.outcome, 'text': text_sha})
                 if V and not any(v.prop == prop for v in V) and foreign_budget > 0 and eff.outcome != 'broken':
                     foreign_budget += 0
                     # Only other properties' clauses fired.  Their checks report them; this check goes on for a
